@@ -17,30 +17,32 @@ TVT = 'translation validation: real pipeline output vs reference reading, one SM
 def mc(text, ref): return dict(level=MC, technique=BMC, text=text, ref=ref)
 def tvl(text, ref, extra=''): return dict(level=TV, technique=TVT + extra, text=text, ref=ref)
 CHECKS['C01'] = tvl('Every program of a bounded family (21 structure templates x atom pool, ~30k programs in quick) is compiled by the real pipeline built from /repo; for each, one solver query decides for all subject strings of every length whether the printed regex and the plain reading of the file accept the same strings. Known defect classes are structural predicates on the program; everything outside them must agree.', 'DESIGN.md 4/C01')
-CHECKS['C02'] = mc('Assume-guarantee decomposition of Operator.complete: one lemma per clean-up pass, decided for every printer-shaped text up to the stated length (each length separately, all bytes symbolic): printable one-line output, quotes escaped, no plain backslash, VT in the space class, no inline flag group, sorted flag prefix for every map order.', 'DESIGN.md 4/C02')
-CHECKS['C03'] = mc('Map iteration order is a symbolic schedule: parseLine is run twice with independent symbolic permutations of its 7 patterns on every line up to the stated length; expandDefinitions is run under all orders of its three map loops on enumerated definition shapes. Counterexamples are replayed in fresh processes until the runtime draws the offending order.', 'DESIGN.md 4/C03')
+CHECKS['C02'] = mc('Assume-guarantee decomposition of Operator.complete: one lemma per clean-up pass, decided for every printer-shaped text up to the stated length (each length separately; all printable bytes up to 7, a representative alphabet up to 11; skeleton-guided texts with real and look-alike flag groups for the flag-group pass): printable one-line output, quotes escaped, no plain backslash, VT in the space class, no inline flag group, sorted flag prefix for every map order.', 'DESIGN.md 4/C02')
+CHECKS['C03'] = mc('Map iteration order is a symbolic schedule: parseLine is run twice with independent symbolic permutations of its 7 patterns on every line up to the stated length; expandDefinitions under all orders of its three map loops on enumerated definition shapes; include-except under every order of its line map; lists of two suffix-replacement pairs (all bytes symbolic) under two independent orders. Counterexamples are replayed in fresh processes until the runtime draws the offending order.', 'DESIGN.md 4/C03')
 CHECKS['C04'] = tvl('cmdline blocks under six toolchain.yaml shapes are compiled by the real pipeline and compared with the documented expansion (all evasion strings of every length, one query per block); in addition regexpStr is executed symbolically for every word up to the stated length against an independent character-by-character reference.', 'DESIGN.md 4/C04', ' + bounded symbolic execution of regexpStr')
 CHECKS['C05'] = tvl('Including programs x include files x positions are compiled by the real pipeline and compared (all subject strings) with the reference in which the include is inlined, own definitions local, prefixes/suffixes as a local block; flags in an include must be rejected.', 'DESIGN.md 4/C05')
-CHECKS['C06'] = tvl('include-except and suffix-pair programs are compiled (12 fresh runs each) and compared with the hand-computed set difference / suffix rewrite; the one-pair rewrite of replaceSuffixes is additionally decided symbolically (entry, old, new symbolic).', 'DESIGN.md 4/C06', ' + bounded symbolic execution of replaceSuffixes')
-CHECKS['C07'] = mc('expandDefinitions is executed under ALL iteration orders of its three map loops (symbolic permutations) on enumerated definition shapes (depth-3 chains under several namings, diamond, undefined reference, braces) and must yield the hand-expanded text.', 'DESIGN.md 4/C07')
+CHECKS['C06'] = tvl('include-except and suffix-pair programs are compiled (12 fresh runs each) and compared with the hand-computed set difference / suffix rewrite; the one-pair and two-pair rewrites of replaceSuffixes are decided symbolically (entry, keys, replacements symbolic; two independent symbolic map orders), and include-except keeps the surviving entries in order under every iteration order of its line map.', 'DESIGN.md 4/C06', ' + bounded symbolic execution of replaceSuffixes / buildIncludeExceptString')
+CHECKS['C07'] = mc('expandDefinitions is executed under ALL iteration orders of its three map loops (symbolic permutations) on enumerated definition shapes (depth-3 chains under several namings, diamond, undefined reference, braces) and must yield the hand-expanded text; in addition the VALUE of a definition is symbolic text (every printable byte, e.g. `$`, backslashes, single braces) pasted directly, through a second definition and next to quantifier braces.', 'DESIGN.md 4/C07')
 CHECKS['C08'] = mc('Havoc harness on the package-level assembler state (arbitrary leftover processor, every sequence of up to 3 line kinds) with an inductive stack invariant; --all isolation and completeness on modelled trees through the real performUpdate/performCompare walk callbacks.', 'DESIGN.md 4/C08')
-CHECKS['C09'] = mc('Per-line format step is a fixed point and has the canonical indentation for every line up to the stated length and depth 0..2; whole-file application (header, end of file, --check agreement, --check never writes) on enumerated file structures with symbolic short lines and final-newline flag.', 'DESIGN.md 4/C09')
-CHECKS['C10'] = mc('For every line up to the stated length and depth 0..1 the format step changes white space only and never loses the line; known unanchored-pattern classes excluded by signature.', 'DESIGN.md 4/C10')
+CHECKS['C09'] = mc('Per-line format step is a fixed point and has the canonical indentation for every line up to the stated length and depth 0..2; whole-file application (header, end of file, --check agreement, --check never writes) on enumerated file structures - without header and with the header already present (with / without its blank line) - with symbolic short lines and final-newline flag.', 'DESIGN.md 4/C09')
+CHECKS['C10'] = mc('For every printable line up to the stated length and depth 0..1 the format step changes white space only; for every ASCII line (control bytes included) up to a smaller length the compiler classifies the formatted line as it classified the original and an entry keeps every byte apart from its indentation; a line the step rejects makes format fail without writing. Known pattern defects excluded by signature.', 'DESIGN.md 4/C10')
 CHECKS['C11'] = dict(level=MC, technique=BMC,
     text='For every old/new operand (printable ASCII satisfying the C02 invariants) up to the stated lengths, both operator spellings, trailing bytes on the rule line and an arbitrary earlier rule whose SecRule line may be identical, the solver shows that updateRegex changes exactly the operand bytes of the addressed rule; known defect classes are excluded by signature and a witness of each is replayed.',
     ref='DESIGN.md 4/C11')
 CHECKS['C12'] = dict(level=MC, technique=BMC,
-    text='For every operand up to the stated length the solver shows that compare reads back exactly the stored operand and that a second update is the identity on the file bytes (round trip decomposed into single-step lemmas).',
+    text='For every operand up to the stated length the solver shows that compare reads back exactly the stored operand and that a second update is the identity on the file bytes (round trip decomposed into single-step lemmas); compare --all on a three-rule tree fails in GitHub mode exactly when some stored operand is stale, wherever it sits in the walk, and reports every rule in text mode.',
     ref='DESIGN.md 4/C12')
-CHECKS['C13'] = mc('processYaml on enumerated file structures (id/title/other/empty/blank lines) with symbolic spacing, old values, trailing blanks and final-newline flag: n-th id is n, n-th title <rule>-n, other lines untouched, one final newline, second application identical; single arbitrary line lemma.', 'DESIGN.md 4/C13')
-CHECKS['C14'] = mc('One-step history lemma: from a marker line showing ANY accepted previous version, one run with any accepted version shows the new version/year (induction over runs gives history independence and idempotence); non-marker lines are byte-identical.', 'DESIGN.md 4/C14')
+CHECKS['C13'] = mc('processYaml on enumerated file structures (id/title/other/empty/blank lines) with symbolic spacing, old values, trailing blanks and final-newline flag: n-th id is n, n-th title <rule>-n, other lines untouched, one final newline, second application identical; arbitrary old numbers (digit strings); single arbitrary line lemma; processFile in --check mode writes nothing and fails exactly when the rewrite would change the file.', 'DESIGN.md 4/C13')
+CHECKS['C14'] = mc('One-step history lemma: from a marker line showing ANY accepted previous version, one run with any accepted version shows the new version/year (induction over runs gives history independence and idempotence); a line carrying two markers shows the new version in both; non-marker lines are byte-identical.', 'DESIGN.md 4/C14')
 CHECKS['C15'] = mc('Every os.WriteFile reached is logged with guard and path: walks over a modelled tree plus one arbitrary directory entry (symbolic name and IsDir); --check variants never write, rewriting commands write only their targets.', 'DESIGN.md 4/C15')
-CHECKS['C16'] = mc('Per fault class and position the command body must not end with exit status 0 (normal return / nil error); exit status derived from how the body ends (Fatal, Panic, returned error).', 'DESIGN.md 4/C16')
-CHECKS['C17'] = mc('bufio.Scanner modelled by its token-limit contract; a line longer than 64 KiB at a symbolic (or enumerated) position must not silently drop the following lines in any reader loop.', 'DESIGN.md 4/C17')
-CHECKS['C19'] = mc('All runtime-fault obligations (index, slice, nil, division) and unwinding assertions generated while executing the clean-up passes on every printer-shaped text up to the stated length.', 'DESIGN.md 4/C19')
+CHECKS['C16'] = mc('Per fault class (19) and position the command body must not end with exit status 0 (normal return / nil error); exit status derived from how the body ends (Fatal, Panic, returned error); format on a file it cannot format fails and leaves the file byte-identical.', 'DESIGN.md 4/C16')
+CHECKS['C17'] = mc('bufio.Scanner and bufio.Reader.ReadLine modelled by their contracts (token limit / pieces with isPrefix); a line longer than 64 KiB at a symbolic (or enumerated) position must be carried through completely or make the reader fail loudly - never silently drop, split or truncate lines - in each of five reader loops.', 'DESIGN.md 4/C17')
+CHECKS['C19'] = mc('All runtime-fault obligations (index, slice, nil, division) and unwinding assertions generated while executing the clean-up passes on every printer-shaped text up to the stated length (plus skeleton-guided texts with real and look-alike flag groups); termination of definition expansion on cyclic and self-referential definitions (loop bound exceeded = violation candidate, confirmed by a native run that does not return).', 'DESIGN.md 4/C19')
 NA = {
  'C20': 'decided inside go-selfupdate + net/http + SHA-256 over downloaded streams; not encodable by a hand-written SSA->SMT executor (DESIGN.md section 7)',
 }
+import subprocess
+FIXES = subprocess.run(['git', '-C', '/repo', 'log', '--format=%h %s', '--grep=^fix:', 'e6783a7..HEAD'], capture_output=True, text=True).stdout.strip().splitlines()
 checks = []
 for pid, c in sorted(CHECKS.items()):
     checks.append({
@@ -57,7 +59,8 @@ for pid, c in sorted(CHECKS.items()):
 na = [{'property_id': i, 'reason': NA.get(i, 'check not built yet (work in progress; see DESIGN.md section 4 for the plan)')} for i in ids if i not in CHECKS]
 m = {'version': 1, 'setup_cmd': './setup.sh',
      'hooks': {'guard': 'verif', 'enable': 'harness files under /verif/harness carry //go:build verif and are injected in-package through go/packages Overlay (analysis) and `go test -tags verif -overlay` (replay); nothing is committed to /repo',
-               'baseline_off_cmd': 'cd /repo && GOFLAGS=-mod=mod GOPROXY=off go test -vet=off -count=1 ./...', 'source_commits': [], 'add_only': True},
+               'baseline_off_cmd': 'cd /repo && GOFLAGS=-mod=mod GOPROXY=off go test -vet=off -count=1 ./...', 'source_commits': [], 'add_only': True,
+               'fix_commits': FIXES},
      'engines': [
         {'name': 'ssadump', 'path': 'engine/ssadump', 'serves_properties': sorted(CHECKS), 'kind_free_text': 'E0: go/packages+go/ssa dump of /repo working tree with harness overlay (JSON)'},
         {'name': 'gobmc', 'path': 'engine/gobmc.py', 'serves_properties': sorted(CHECKS), 'kind_free_text': 'E1: merged-path bounded model checker for Go SSA -> z3 (QF_BV), unwinding assertions, panic obligations'},
